@@ -424,6 +424,9 @@ def rule_C6e(ctx, prog, label, rule='C6e'):
                     return lin_at(d1, d1)         # a const local stands for its definition, evaluated where it is defined
             if e0.kind == 'DeclRefExpr' and e0.refid in ups:
                 val = Lin.atom(e0.ref + '@0')
+                dcl = fs.decl.get(e0.refid)
+                if dcl is not None and dcl.kind == 'VarDecl' and dcl.kids and dcl.init and len(fs.defs.get(e0.refid, [])) == 1:
+                    val = lin_at(dcl.kids[-1], dcl)          # a block-local copy (`rci_t nnn = <outer nnn>; nnn *= 2;`) starts from its initialiser
                 for (pos, op, c) in sorted(ups[e0.refid]):
                     if pos < ((at.line or 0), (at.col or 0)):
                         val = val.scale(c) if op == '*=' else (val + Lin(c) if op == '+=' else val - Lin(c))
